@@ -10,7 +10,7 @@ state statements are turned into the statements the property literally makes:
                            `toMarrow ext fields (batch k)`.  No hypothesis on schema or rows.
   C10_histories            `outs.length = number of builds`, and the arrays of build k decode (`Spec.decodeAll`), column by
                            column, to exactly `(batch k).map (interpRow ext fields)`; a 0-row build decodes to empty columns.
-                           Hypotheses: those of `C01.C01_build_decode`.
+                           Hypotheses: those of `C01.C01_build_decode'` (no `Safe`).
   C10_chunking_irrelevant  two histories with the same batches return physically equal arrays (and see equal states), and
                            end in the same builder state when the rows after the last build agree as well.
   C10_build_is_fresh       what follows a build in a history is literally a history of a fresh builder: same arrays,
@@ -174,7 +174,7 @@ theorem run_oneShot (ext : Ext) (fields : List Field) (r0 : B) (h0 : newRoot fie
 /-! ### `C10_histories` -/
 
 /-- "the arrays `arrs` decode, column by column, to exactly the documented rows of `rows`" — the conclusion of
-`C01.C01_build_decode`: one array per field; `cols` (one column per field, named after it, `rows.length` slots each) is
+`C01.C01_build_decode'`: one array per field; `cols` (one column per field, named after it, `rows.length` slots each) is
 what the arrays decode to by the Arrow reading rules; and the documented value of record `i` is the struct whose `j`-th
 field is slot `i` of column `j`. -/
 def DecodesTo (ext : Ext) (fields : List Field) (arrs : List Arr) (rows : List SVal) : Prop :=
@@ -221,11 +221,12 @@ the builder of `fields` (any length, zero-row and repeated builds included): whe
 result per `build`, and the arrays of build `k` decode (`Spec.decodeAll`: the Arrow reading rules, slot by slot), column
 by column, to exactly the documented rows `interpRow ext fields` of batch `k` — the records added since build `k-1`, in
 order, however they were added.  (A 0-row build decodes to empty columns: `DecodesTo.empty`.)
-Hypotheses: exactly those of `C01.C01_build_decode` (`SchemaOKF`, `coveredF`, `Safe`; records whose raw call streams
-alternate, `structStreamsAlternate`; the sentinel bound `narrowRoot` when some record contains a raw stream). -/
+Hypotheses: exactly those of `C01.C01_build_decode'` (`SchemaOKF`, `coveredF` — NO `Safe`: the hidden-rows refinement;
+records whose raw call streams alternate, `structStreamsAlternate`; the sentinel bound `narrowRoot` when some record contains
+a raw stream). -/
 theorem C10_histories (ext : Ext) (fields : List Field) (r0 : B) (h0 : newRoot fields = .ok r0)
     (hschema : ∀ f ∈ fields, Lemmas.C03.SchemaOKF f)
-    (hcov : fields.all Build.coveredF = true) (hsafe : Safe r0)
+    (hcov : fields.all Build.coveredF = true)
     (ops : List Op) (hraw : OpsOK (fun x => structStreamsAlternate x = true) ops)
     (hnar : OpsOK (fun x => noRaw x = true) ops ∨ narrowRoot fields = true)
     (outs : List (B × List Arr)) (fin : B) (h : run ext r0 ops = .ok (outs, fin)) :
@@ -241,15 +242,15 @@ theorem C10_histories (ext : Ext) (fields : List Field) (r0 : B) (h0 : newRoot f
     mem_batchesFrom (fun x => structStreamsAlternate x = true) ops [] (by simp) hraw _ (List.getElem_mem h2)
   have hnar' : (∀ x ∈ (batchesFrom [] ops)[k], noRaw x = true) ∨ narrowRoot fields = true :=
     hnar.imp (fun hno => mem_batchesFrom (fun x => noRaw x = true) ops [] (by simp) hno _ (List.getElem_mem h2)) id
-  exact C01.C01_build_decode ext fields _ _ hschema hcov
-    (fun root0 hr => by rw [h0] at hr; cases hr; exact hsafe) hrows hnar' hm
+  exact C01.C01_build_decode' ext fields _ _ hschema hcov hrows hnar' hm
 
 /-- **every build returns well-formed arrays of its batch's length** (C03 along histories): the arrays of build `k` are
 well-formed Arrow arrays of the declared fields (`Spec.WF`), one per field, each of exactly `(batch k).length` rows.
-Hypotheses: those of `C03.C03_wf`. -/
+Hypotheses: those of `C01.C03_wf'` — `hsafe` is `Safe r0 ∨ coveredF` (decidable on the schema; excluded: a dictionary with
+NON-nullable keys and a value type other than Utf8 / LargeUtf8 below a nullable struct / fixed-size list). -/
 theorem C10_builds_wf (ext : Ext) (fields : List Field) (r0 : B) (h0 : newRoot fields = .ok r0)
     (hschema : ∀ f ∈ fields, Lemmas.C03.SchemaOKF f)
-    (hsafe : Safe r0) (hext : Lemmas.C03.ExtOK ext)
+    (hsafe : Safe r0 ∨ fields.all Build.coveredF = true) (hext : Lemmas.C03.ExtOK ext)
     (ops : List Op) (hrows : OpsOK Lemmas.C03.SValOK ops)
     (outs : List (B × List Arr)) (fin : B) (h : run ext r0 ops = .ok (outs, fin)) :
     ∀ (k : Nat) (h1 : k < outs.length) (h2 : k < (batchesFrom [] ops).length),
@@ -260,7 +261,8 @@ theorem C10_builds_wf (ext : Ext) (fields : List Field) (r0 : B) (h0 : newRoot f
   obtain ⟨_, hg⟩ := Props.C03.All2_get hall
   intro k h1 h2
   obtain ⟨_, hm⟩ := hg k h1 h2
-  exact Props.C03.C03_wf ext fields _ _ hschema (fun root0 hr => by rw [h0] at hr; cases hr; exact hsafe) hext
+  exact Props.C01.C03_wf' ext fields _ _ hschema
+    (hsafe.imp (fun hs root0 hr => by rw [h0] at hr; cases hr; exact hs) id) hext
     (mem_batchesFrom Lemmas.C03.SValOK ops [] (by simp) hrows _ (List.getElem_mem h2)) hm
 
 /-! ### `C10_chunking_irrelevant` -/
@@ -437,7 +439,7 @@ example : ∀ outs fin, run {} exRoot0 exOps = .ok (outs, fin) → outs.length =
   intro outs fin h
   have := C10_histories {} exFields exRoot0 exNew
     (by simp [exFields, Lemmas.C03.SchemaOKF, Lemmas.C03.SchemaOK])
-    (by decide) (by simp [exRoot0, Safe, SafeL, B.isDict]) exOps (by unfold OpsOK; decide)
+    (by decide) exOps (by unfold OpsOK; decide)
     (Or.inl (by unfold OpsOK; decide)) outs fin h
   exact ⟨this.1, this.2.2⟩
 
@@ -450,5 +452,18 @@ example : (do
           [.ok (.list (.cons (.int 1) .nil)), .ok (.list .nil), .ok (.list (.cons (.int 2) (.cons (.int 3) .nil)))]],
          [[], []],
          [[.ok (.str [122]), .ok (.str [122])], [.ok (.list .nil), .ok .null]]] := by decide +kernel
+
+/-- `C10_histories` on the history of Props/C10.lean over the schema OUTSIDE `Safe` (`exUnsafeRoot0_not_safe`: a dictionary
+with non-nullable keys below a nullable struct; records `None`, `{d: "a"}`, build, `None`, build): every hypothesis
+discharged -/
+example : ∀ outs fin, run {} exUnsafeRoot0 exUnsafeOps = .ok (outs, fin) → outs.length = 2 ∧
+    ∀ (k : Nat) (h1 : k < outs.length) (h2 : k < (batchesFrom [] exUnsafeOps).length),
+      DecodesTo {} C01.exUnsafeFields outs[k].2 (batchesFrom [] exUnsafeOps)[k] := by
+  intro outs fin h
+  have := C10_histories {} C01.exUnsafeFields exUnsafeRoot0 exUnsafeNew
+    (by simp [C01.exUnsafeFields, Lemmas.C03.SchemaOKF, Lemmas.C03.SchemaOK, Lemmas.C03.SchemaOKFs])
+    (by decide) exUnsafeOps (by unfold OpsOK; decide)
+    (Or.inl (by unfold OpsOK; decide)) outs fin h
+  exact ⟨this.1, this.2.2⟩
 
 end SaModel.Props.C10
